@@ -184,7 +184,7 @@ void c_iintAbs(BInt r, BInt a)
 #ifndef CANARY_iintNegate
 #define POST_iintNegate(na, ma, r) (((r)->isNeg != 0) == ((na) == 0) && BS_MAG(r) == (ma) && (r)->placec <= (r)->placea)
 #else
-#define POST_iintNegate(na, ma, r) (((r)->isNeg != 0) == ((na) != 0) && BS_MAG(r) == (ma))
+#define POST_iintNegate(na, ma, r) (((r)->isNeg != 0) == ((na) != 0))    /* canary: sign not flipped */
 #endif
 void c_iintNegate(BInt r, BInt a)
 	__CPROVER_requires(PRE_iintNegate(r, a) && g_ma == BS_MAG(a) && g_na == (a)->isNeg)
@@ -294,8 +294,8 @@ Bool c_bintBit(BInt b, Length ix)
  * recursive calls of the sign dispatch pass xintStore'd immediates, which are not canonical).
  * BS_CAP3: the size cap of the class-B jobs is part of the contract because BS_V is only
  * defined up to 4 digits.
- * The wrappers flip isNeg of a stored operand and flip it back: assigns lists the flag,
- * ensures says it is restored, so the operands' values are those on entry.
+ * The wrappers flip isNeg of a stored operand and flip it back: the harness checks that the
+ * operands' values after the call are those on entry.
  * ===================================================================================== */
 #define BS_CAP3(b)               (BS_IS_IMM(b) || (b)->placec <= 3)
 #define PRE_bint1(a)             (BS_WF_OP(a) && BS_CAP3(a))
@@ -325,19 +325,12 @@ Bool c_bintBit(BInt b, Length ix)
 #define POST_bintTimes(va, vb, r) (BS_CANON(r) && BS_V(r) == (va) * (vb) + 1)
 #endif
 
-#define BS_FLAG_KEPT(a, oldneg)  (BS_IS_IMM(a) || (a)->isNeg == (oldneg))
-BInt c_bintPlus(BInt a, BInt b)
-	__CPROVER_requires(PRE_bint2(a, b))
-	__CPROVER_ensures(BS_FLAG_KEPT(a, __CPROVER_old(a->isNeg)) && BS_FLAG_KEPT(b, __CPROVER_old(b->isNeg)))
-	__CPROVER_ensures(BS_IS_IMM(__CPROVER_return_value) || __CPROVER_is_fresh(__CPROVER_return_value, sizeof(struct bint)))
-	__CPROVER_ensures(POST_bintPlus(BS_V(a), BS_V(b), __CPROVER_return_value))
-	__CPROVER_assigns(!BS_IS_IMM(a): a->isNeg; !BS_IS_IMM(b): b->isNeg);
-BInt c_bintMinus(BInt a, BInt b)
-	__CPROVER_requires(PRE_bint2(a, b))
-	__CPROVER_ensures(BS_FLAG_KEPT(a, __CPROVER_old(a->isNeg)) && BS_FLAG_KEPT(b, __CPROVER_old(b->isNeg)))
-	__CPROVER_ensures(BS_IS_IMM(__CPROVER_return_value) || __CPROVER_is_fresh(__CPROVER_return_value, sizeof(struct bint)))
-	__CPROVER_ensures(POST_bintMinus(BS_V(a), BS_V(b), __CPROVER_return_value))
-	__CPROVER_assigns(!BS_IS_IMM(a): a->isNeg; !BS_IS_IMM(b): b->isNeg);
+/* bintPlus/bintMinus/bintNegate/bintAbs/bintCopy/bintTimes/bintShift: the POST_ macros above are evaluated by
+ * the harness (CHECK) on the real, fully inlined bodies; no c_<fn> declaration is bound for them.  A modular
+ * route (c_bintPlus with __CPROVER_old(a->isNeg) / __CPROVER_is_fresh(return) clauses, --enforce-contract-rec,
+ * inner calls replaced) was built and measured: goto-instrument's write-set instrumentation on tagged
+ * (integer-or-heap) pointers took > 150 s of symbolic execution and the solver ran out of 8 GB; see
+ * harness/C11/bigint_h.c, "sum and difference". */
 
 /* b * 2^n; n < 0 shifts the magnitude right (quotient by 2^-n truncated toward zero, the
  * property's rounding rule for quotients) */
